@@ -13,7 +13,12 @@
 (* Stats.tla); a case is a record                                                  *)
 (*   [x, y, w : Seq(Int), mode : {"binsize","nbin","nperbin"}, b : Int (bin size | *)
 (*    bin count | members per bin), merge : BOOLEAN, hasmin, hasmax : BOOLEAN,     *)
-(*    min, max : Int]                                                              *)
+(*    min, max : Int,                                                              *)
+(*    rep : [x, y, w : STRING] the REPRESENTATION in which each array argument is  *)
+(*    handed to the code (element type, byte order, python list, strided / reversed*)
+(*    / record-field view, scalar).  A representation never changes a value, so no *)
+(*    operator of this module reads c.rep: every expectation is representation     *)
+(*    independent - that is the specification of this dimension]                   *)
 (* An observation (one call of the real code on the case) is                       *)
 (*   [err : STRING, hasy, hasw : BOOLEAN (second variable / weights were passed),  *)
 (*    wantrev : BOOLEAN (the call is documented to produce reverse indices),       *)
